@@ -141,7 +141,7 @@ fn main() {
     if prop == "C03" || prop == "C02" {
         ops::c03_fastpath(&mut g, thorough, &mut out);
     }
-    if prop == "C05" || prop == "C01" {
+    if prop == "C05" || prop == "C01" || prop == "C16" {
         ops::large_bytes(&mut g, thorough, &mut out);
     }
     if prop == "C05" || prop == "C17" {
